@@ -631,6 +631,7 @@ func c04Engine(c *Ctx) {
 				{"box-in-block", e.scBoxInBlock},
 				{"across", e.scAcross},
 				{"box3", e.scBox3},
+				{"box-forged-hash", e.scBoxForgedHash},
 				{"window", e.scWindow},
 				{"window-box", e.scWindowBox},
 				{"fork", e.scFork},
@@ -1165,6 +1166,88 @@ func (e *c04eEnv) scAcross() {
 			c.Count("e:across:" + kind + ":rejected")
 			if k := e.execs(parent, p.rcpt, p.amount); k != 1 {
 				c.Count(fmt.Sprintf("e:across:%s:first-execs-%d", kind, k))
+			}
+		}
+	}
+}
+
+// c04eForgedBox: a box signed by `by` whose payload is the JSON of the sub-txs with a "hash" member that CLAIMS another hash
+// (or names none). The identity of a sub-tx must be computed from its content: a decoder that trusts the member gives an included
+// tx a new identity and every replay defence keyed by sub-tx hashes (guard, duplicate scan, pool) is blind to it.
+func (e *c04eEnv) forgedBox(by *ecdsa.PrivateKey, exp uint64, mode string, subs ...*types.Transaction) *types.Transaction {
+	var cp types.Transactions
+	for _, s := range subs {
+		cp = append(cp, c04eWire(s))
+	}
+	data, err := types.MarshalBoxData(cp)
+	if err != nil {
+		panic(err)
+	}
+	var m map[string]interface{}
+	if err := json.Unmarshal(data, &m); err != nil {
+		panic(err)
+	}
+	list, _ := m["subTxList"].([]interface{})
+	for i, it := range list {
+		sm, _ := it.(map[string]interface{})
+		switch mode {
+		case "claims-other-hash":
+			sm["hash"] = common.BytesToHash([]byte(fmt.Sprintf("forged-%d-%d", i, e.g.c.Rnd.Int63()))).Hex()
+		case "claims-zero-hash":
+			sm["hash"] = common.Hash{}.Hex()
+		case "no-hash-member":
+			delete(sm, "hash")
+		}
+	}
+	nd, _ := json.Marshal(m)
+	bx := mkTx(by, nil, nil, nd, params.BoxTx, TxOpt{Exp: exp, Msg: e.g.msg(), GasLimit: uint64(100000 + 2100000*len(subs))})
+	e.g.boxSubs[bx.Hash()] = cp
+	return bx
+}
+
+// a tx T packaged standalone, then a box whose JSON payload carries T again under a forged / missing "hash" member: the second
+// execution of T must be refused whatever the payload claims about T's hash
+func (e *c04eEnv) scBoxForgedHash() {
+	c, rnd := e.g.c, e.g.c.Rnd
+	for _, mode := range []string{"claims-other-hash", "claims-zero-hash", "no-hash-member"} {
+		for _, order := range []string{"standalone-then-box", "box-then-box"} {
+			base := e.base()
+			t1 := base.Time() + 1 + uint32(rnd.Intn(25))
+			t2 := t1 + uint32(rnd.Intn(100))
+			exp := uint64(t2) + uint64(rnd.Intn(1000))
+			p := e.pay(exp)
+			boxer := e.otherUser(p.from)
+			var first *types.Transaction = p.tx
+			if order == "box-then-box" {
+				first = e.forgedBox(e.otherUser(boxer), uint64(t2), mode, p.tx)
+			}
+			second := e.forgedBox(boxer, uint64(t2), mode, p.tx)
+			b1, _ := e.build(base, t1, first)
+			if len(b1.Txs) != 1 || e.insert(b1) != "accept" {
+				c.Count("e:box-forged-hash:" + mode + ":" + order + ":first-not-included")
+				continue
+			}
+			if k := e.execs(b1, p.rcpt, p.amount); k != 1 {
+				c.Count(fmt.Sprintf("e:box-forged-hash:%s:%s:first-execs-%d", mode, order, k))
+				continue
+			}
+			b2, _ := e.build(b1, t2, second)
+			if len(b2.Txs) == 0 {
+				c.Count("e:box-forged-hash:" + mode + ":" + order + ":miner-dropped")
+				e.insert(b2)
+				continue
+			}
+			c.Count("e:box-forged-hash:" + mode + ":" + order + ":miner-included")
+			if verdict := e.insert(b2); verdict == "accept" {
+				k := e.execs(b2, p.rcpt, p.amount)
+				c.Count("e:box-forged-hash:" + mode + ":" + order + ":accepted")
+				if k != 1 {
+					e.g.fail("c04/replayed/box-forged-sub-hash/"+mode, fmt.Sprintf("tx %s packaged in block height %d (%s), then again inside a box whose JSON payload %s: accepted, recipient credited %d x %s",
+						p.tx.Hash().Hex()[:10], b1.Height(), order, mode, k, p.amount),
+						e.witness(map[string]interface{}{"mode": mode, "order": order, "t1": t1, "t2": t2, "exp": exp, "execs": k}))
+				}
+			} else {
+				c.Count("e:box-forged-hash:" + mode + ":" + order + ":rejected")
 			}
 		}
 	}
